@@ -330,6 +330,9 @@ func (s *Supervisor) effectiveBounds(gs *GroupScan) {
 	if k := s.w.known[g.ASG]; k != nil && k.Ambiguous {
 		gs.KnownAmbiguous = true
 	}
+	if k := s.w.known[g.ASG]; k != nil && k.AmbiguousMembers {
+		gs.MembersAmbiguous = true
+	}
 }
 
 var gaugeVecs = map[string]*prometheus.GaugeVec{
